@@ -9,13 +9,13 @@ checks = [
  ("C02","ledger","exploration","§5 C02","runtime monitor inspecting every posting (sign, names, asset of the producing statement attributed by prefix executions)",
   "Exploration: every posting of every successful run is inspected; statement attribution is obtained at the boundary by executing every prefix of the script. Hostile account names enter through variables and metadata."),
  ("C03","ledger","exploration","§5 C03","reference-model monitor: real outcome and per-statement totals vs. an executable reference draw, amounts tuned onto the supply frontier",
-  "Exploration with an independent executable reference semantics as online oracle, both directions (no spurious failure, no missed failure, exact totals, zero result on error)."),
+  "Exploration with an independent executable reference semantics as online oracle, both directions (no spurious failure, no missed failure, exact totals, zero result on error); each parse result is also run a second time with other variable values."),
  ("C04","ledger","exploration","§5 C04","reference-model monitor on per-account debits + small-scope exhaustive sweep of source trees × balances × need × mode",
   "Exploration + exhaustive small scope: debit row sums of every statement vs. the reference greedy draw; all source trees of the listed forms over 2 accounts with small balances/caps/needs in fixed and send-all mode are enumerated completely."),
  ("C05","ledger","exploration","§5 C05","reference-model monitor on per-account credits and conservation + exhaustive sweep of ordered destinations",
   "Exploration + exhaustive small scope: credit column sums and credited+kept=sent per statement; all ordered destinations with ≤ 3 clauses (caps −1..4, kept / nested targets) × amounts 0..8 enumerated."),
  ("C06","ledger","exploration","§5 C06","exact-rational oracle over exhaustively enumerated portion vectors × totals, observed as credits/debits of single-allotment scripts",
-  "Exhaustive for every composition of every denominator ≤ 12 (thorough ≤ 24) into 2–4 clauses × totals 0..60 (0..200), both sides, with and without `remaining`; random beyond (10^40 totals, decimals, variables, bad sums)."),
+  "Exhaustive for every composition of every denominator ≤ 12 (thorough ≤ 24) into 2–4 clauses × totals 0..60 (0..200), both sides, with and without `remaining`; random beyond (10^40 totals, every number of decimals 1..40, word-boundary terms, terms beyond a machine word used twice, variables, bad sums incl. nested under zero shares, second runs of one parse result with other portion values)."),
  ("C07","ledger","exploration","§5 C07","reference FIFO-pairing monitor on the full source×destination flow matrix + interpreter.Reconcile driven directly on enumerated sender/receiver lists",
   "Exploration + exhaustive small scope (all sender/receiver lists up to length 3 (thorough 4), amounts 1..3, kept anywhere) directly against Reconcile."),
  ("C08","ledger","exploration","§5 C08","reference-model monitor (save rule) over systematic statement sequences × balances + save-heavy random scripts",
@@ -41,9 +41,9 @@ checks = [
  ("C18","analysis","exploration","§5 C18","crash guard + watchdog over CheckSource ×2, GetSymbols, HoverOn and GotoDefinition at every cursor position; geometric check of diagnostics; set comparison of two analyses",
   "Exploration over the C14 text family (every prefix of generated scripts, token/byte damage, soups)."),
  ("C19","lsp","exploration","§5 C19","history monitor: every response and published notification compared with a fresh server holding only the latest text (unique version markers); navigation monitor at every cursor position against the generator's own knowledge",
-  "Exhaustive for histories of length ≤ 3 (thorough ≤ 4) over a 34-operation alphabet; random long histories; sequential histories are the whole space (single server loop)."),
+  "Exhaustive for histories of length ≤ 3 (thorough ≤ 4) over a 48-operation alphabet (incl. change notifications without content changes); random long histories; sequential histories are the whole space (single server loop). Published diagnostics and symbol answers are also compared with analysis.CheckSource of the latest text; navigation is checked in damaged documents against the parser's own tree of the damaged text."),
  ("C20","cli","exploration","§5 C20","process monitor: the built binary's exit status / stdout / stderr compared with the in-process library on the same inputs through three input channels",
-  "Exploration over child processes of the binary built from the working tree."),
+  "Exploration over child processes of the binary built from the working tree; inputs also as other programs write them (other JSON escapes, exponent / decimal-point numbers, byte order marks), files with a given number of errors."),
 ]
 props = {json.loads(l)["id"] for l in open(os.path.join(HERE, "properties.jsonl"))}
 m = {
